@@ -182,9 +182,12 @@ thread_local! {
         tokio::runtime::Builder::new_current_thread().enable_all().build().unwrap();
 }
 
-/// A cluster whose keyspace `k<ks>` is tablet based with table `t`; `reps` = the replicas of the one tablet that covers
-/// every token (`None` = the table has no tablet yet).
-fn build_tablet_cluster(peers: &[PeerSpec], kss: &[Strat], ks: usize, reps: Option<&[(u64, u32)]>) -> ClusterState {
+/// A tablet on the case line: first and last token (both inside) and the replicas `(host, shard)`.
+type TabletSpec = (i64, i64, Vec<(u64, u32)>);
+
+/// A cluster whose keyspace `k0` is tablet based with table `t` and the given tablets (fed one by one through
+/// `update_tablets`, as tablet feedback arrives).
+fn build_tablet_cluster(peers: &[PeerSpec], kss: &[Strat], tablets: &[TabletSpec]) -> ClusterState {
     let nodes: Vec<NodeSpec> = peers
         .iter()
         .map(|p| NodeSpec {
@@ -202,11 +205,11 @@ fn build_tablet_cluster(peers: &[PeerSpec], kss: &[Strat], ks: usize, reps: Opti
         .map(|(i, s)| KeyspaceSpec { name: format!("k{}", i), strategy: to_strategy(s) })
         .collect();
     let mut tables: HashMap<String, Vec<String>> = HashMap::new();
-    tables.insert(format!("k{}", ks), vec!["t".to_owned()]);
+    tables.insert("k0".to_owned(), vec!["t".to_owned()]);
     let mut cs = RT5.with(|rt| rt.block_on(cluster_from_topology_with_tablets(&nodes, &ksv, &tables)));
-    if let Some(reps) = reps {
+    for (first, last, reps) in tablets {
         let r: Vec<(uuid::Uuid, u32)> = reps.iter().map(|(h, s)| (host_id(*h), *s)).collect();
-        cs.verif_update_tablets(&[(format!("k{}", ks), "t".to_owned(), i64::MIN + 1, i64::MAX, r)]);
+        cs.verif_update_tablets(&[("k0".to_owned(), "t".to_owned(), *first, *last, r)]);
     }
     cs
 }
@@ -217,11 +220,11 @@ fn cluster(
     ks_s: &str,
     ks: &[Strat],
     sharders: &HashMap<uuid::Uuid, (u16, u8)>,
-    tablet: Option<(usize, &str, Option<&[(u64, u32)]>)>,
+    tablet: Option<(&str, &[TabletSpec])>,
 ) -> Rc<ClusterState> {
     let key = match tablet {
         None => format!("{} {}", topo_s, ks_s),
-        Some((k, t, _)) => format!("{} {} T{} {}", topo_s, ks_s, k, t),
+        Some((t, _)) => format!("{} {} T {}", topo_s, ks_s, t),
     };
     CACHE.with(|c| {
         let mut c = c.borrow_mut();
@@ -233,7 +236,7 @@ fn cluster(
         }
         let cs = Rc::new(match tablet {
             None => build_cluster(peers, ks),
-            Some((k, _, reps)) => build_tablet_cluster(peers, ks, k, reps),
+            Some((_, tablets)) => build_tablet_cluster(peers, ks, tablets),
         });
         // pool-less nodes get the sharder the flags word asks for (`Node::sharder()` answers it)
         set_sharders(&cs, sharders);
@@ -363,26 +366,46 @@ pub fn run(case: &str, ctx: &mut Ctx) -> String {
     if samples == 0 {
         return "bad-case".into();
     }
-    // tplan: the request's table (k<ks>, t) is tablet based; `-` = no tablet yet, else the replicas `id@shard,..` of the
-    // one tablet covering every token (known host ids only; a node may be listed twice with different shards)
-    let tablet: Option<Option<Vec<(u64, u32)>>> = if is_tplan {
-        if !matches!(rq.ks, Some(k) if k < kss.len()) {
+    // tplan: the table (k0, t) is tablet based; `-` = no tablet yet, else tablets `first:last:id@shard,..` separated by
+    // `|`, ascending and disjoint (a bare replica list = one tablet covering every token; known host ids only; a node
+    // may be listed twice with different shards)
+    let tablets: Option<Vec<TabletSpec>> = if is_tplan {
+        if kss.is_empty() {
             return "bad-case".into();
         }
-        if w[5] == "-" {
-            Some(None)
-        } else {
-            let mut v: Vec<(u64, u32)> = Vec::new();
-            for e in w[5].split(',') {
-                let Some((i, sh)) = e.split_once('@') else { return "bad-case".into() };
-                let (Ok(i), Ok(sh)) = (i.parse::<u64>(), sh.parse::<u32>()) else { return "bad-case".into() };
-                if !peers.iter().any(|p| p.id == i) {
+        let mut v: Vec<TabletSpec> = Vec::new();
+        if w[5] != "-" {
+            for t in w[5].split('|') {
+                let f: Vec<&str> = t.split(':').collect();
+                let (first, last, reps_s) = match f.len() {
+                    1 => (i64::MIN + 1, i64::MAX, f[0]),
+                    3 => {
+                        let (Ok(a), Ok(b)) = (f[0].parse::<i64>(), f[1].parse::<i64>()) else { return "bad-case".into() };
+                        (a, b, f[2])
+                    }
+                    _ => return "bad-case".into(),
+                };
+                if first == i64::MIN || first > last {
                     return "bad-case".into();
                 }
-                v.push((i, sh));
+                let mut reps: Vec<(u64, u32)> = Vec::new();
+                for e in reps_s.split(',') {
+                    let Some((i, sh)) = e.split_once('@') else { return "bad-case".into() };
+                    let (Ok(i), Ok(sh)) = (i.parse::<u64>(), sh.parse::<u32>()) else { return "bad-case".into() };
+                    if !peers.iter().any(|p| p.id == i) {
+                        return "bad-case".into();
+                    }
+                    reps.push((i, sh));
+                }
+                if let Some(prev) = v.last() {
+                    if prev.1 >= first {
+                        return "bad-case".into();
+                    }
+                }
+                v.push((first, last, reps));
             }
-            Some(Some(v))
         }
+        Some(v)
     } else {
         None
     };
@@ -404,7 +427,7 @@ pub fn run(case: &str, ctx: &mut Ctx) -> String {
         w[2],
         &kss,
         &sharders,
-        tablet.as_ref().map(|t| (rq.ks.unwrap(), w[5], t.as_deref())),
+        tablets.as_ref().map(|t| (w[5], t.as_slice())),
     );
 
     // the policy, through the public builder
@@ -450,7 +473,14 @@ pub fn run(case: &str, ctx: &mut Ctx) -> String {
     }
     let strat: Option<&Strat> = if cfg.token_aware && rq.token.is_some() { rq.ks.and_then(|k| kss.get(k)) } else { None };
     let tok = rq.token.map(norm_token).unwrap_or(0);
-    let tablet_reps: Option<Vec<(u64, u32)>> = tablet.as_ref().map(|t| t.clone().unwrap_or_default());
+    // a request on the tablet table (k0, t): the replicas of the tablet covering the token (none if no tablet does - the
+    // ring is not consulted); any other request of a tplan case is routed by the ring
+    let tablet_reps: Option<Vec<(u64, u32)>> = match (&tablets, rq.ks) {
+        (Some(ts), Some(0)) => Some(
+            ts.iter().find(|t| rq.token.is_some() && t.0 <= tok && tok <= t.1).map(|t| t.2.clone()).unwrap_or_default(),
+        ),
+        _ => None,
+    };
     let replicas: Vec<u64> = match (&tablet_reps, strat) {
         // a tablet table: the replicas are the tablet's, the ring is not consulted
         (Some(reps), Some(_)) => reps.iter().map(|r| r.0).collect(),
@@ -1085,9 +1115,7 @@ pub fn generate(rng: &mut Rng, tier: Tier, emit0: &mut dyn FnMut(String)) {
         let topo = fmt_topology(&peers);
         let toks = query_tokens(&peers);
         for _ in 0..4 {
-            let tablet = if rng.chance(1, 12) {
-                "-".to_owned()
-            } else {
+            let gen_reps = |rng: &mut Rng| -> String {
                 let k = rng.range(1, 4.min(peers.len() as i64)) as usize;
                 let mut reps: Vec<(u64, u64)> = Vec::new();
                 let mut idx: Vec<usize> = (0..peers.len()).collect();
@@ -1101,6 +1129,31 @@ pub fn generate(rng: &mut Rng, tier: Tier, emit0: &mut dyn FnMut(String)) {
                     reps.push((id, sh + 1 + rng.below(3)));
                 }
                 reps.iter().map(|(i, s)| format!("{}@{}", i, s)).collect::<Vec<_>>().join(",")
+            };
+            let tablet = match rng.below(12) {
+                0 => "-".to_owned(),
+                // several tablets cut at ring tokens, some ranges left uncovered (a token there has no replicas)
+                1..=4 => {
+                    let mut cuts: Vec<i64> = (0..rng.range(1, 4)).map(|_| *rng.pick(&toks)).filter(|t| *t > i64::MIN + 1).collect();
+                    cuts.sort_unstable();
+                    cuts.dedup();
+                    let mut parts: Vec<String> = Vec::new();
+                    let mut first = i64::MIN + 1;
+                    for c in cuts.iter().chain(std::iter::once(&i64::MAX)) {
+                        if *c < first {
+                            continue;
+                        }
+                        if rng.chance(4, 5) {
+                            parts.push(format!("{}:{}:{}", first, c, gen_reps(rng)));
+                        }
+                        if *c == i64::MAX {
+                            break;
+                        }
+                        first = c + 1;
+                    }
+                    if parts.is_empty() { "-".to_owned() } else { parts.join("|") }
+                }
+                _ => gen_reps(rng),
             };
             let cfg = format!(
                 "{}/{}/{}/{}",
@@ -1121,7 +1174,13 @@ pub fn generate(rng: &mut Rng, tier: Tier, emit0: &mut dyn FnMut(String)) {
                 fmt_strategies(&kss),
                 cfg,
                 tok,
-                rng.below(2),
+                // mostly the tablet table's keyspace k0; also the ring keyspace k1, an unknown keyspace, no table
+                match rng.below(10) {
+                    0 => "1".to_owned(),
+                    1 => "5".to_owned(),
+                    2 => "-".to_owned(),
+                    _ => "0".to_owned(),
+                },
                 lwt,
                 cons,
                 gen_pref(rng, &peers, false).fmt(),
@@ -1143,8 +1202,11 @@ pub fn generate(rng: &mut Rng, tier: Tier, emit0: &mut dyn FnMut(String)) {
         "plan 1:0:0:5 S1 a/t/f 5/0/0/one/-/a 3",
         "route 1:0:0:5 S1 a/t/f/s 5/0/0/one/-/a 3",
         "tplan 1:0:0:5 S1 a/t/f/s 5/0/0/one/-/a 3",
-        "tplan 1:0:0:5 S1 a/t/f/s 5/3/0/one/-/a 1@0 3",
-        "tplan 1:0:0:5 S1 a/t/f/s 5/-/0/one/-/a 1@0 3",
+        "tplan 1:0:0:5 - a/t/f/s 5/0/0/one/-/a 1@0 3",
+        "tplan 1:0:0:5 S1 a/t/f/s 5/0/0/one/-/a 1:5:1@0|5:9:1@0 3",
+        "tplan 1:0:0:5 S1 a/t/f/s 5/0/0/one/-/a 7:5:1@0 3",
+        "tplan 1:0:0:5 S1 a/t/f/s 5/0/0/one/-/a -9223372036854775808:5:1@0 3",
+        "tplan 1:0:0:5 S1 a/t/f/s 5/0/0/one/-/a 1:5 3",
         "tplan 1:0:0:5 S1 a/t/f/s 5/0/0/one/-/a 9@0 3",
         "tplan 1:0:0:5 S1 a/t/f/s 5/0/0/one/-/a 1 3",
         "tplan 1:0:0:5 S1 a/t/f/s 5/0/0/one/-/a 1@0 0",
